@@ -50,6 +50,13 @@ inductive Err where
   | intNotReadable   -- AttributeError: 'int' object has no attribute 'readable' (pipelines.safe_readable)
   deriving DecidableEq, Repr
 
+instance {α : Type} [DecidableEq α] : DecidableEq (Except Err α) := fun a b =>
+  match a, b with
+  | .ok x, .ok y => if h : x = y then isTrue (by rw [h]) else isFalse (fun h' => by cases h'; exact h rfl)
+  | .error x, .error y => if h : x = y then isTrue (by rw [h]) else isFalse (fun h' => by cases h'; exact h rfl)
+  | .ok _, .error _ => isFalse (fun h => by cases h)
+  | .error _, .ok _ => isFalse (fun h => by cases h)
+
 /-- what the decoder makes of an operator string (before any file is opened) -/
 inductive Cls where
   | allPipe                 -- r ∈ _A2P_MAP
@@ -72,25 +79,32 @@ def stripFinalNewline (r : Str) : Str :=
   | '\n' :: rest => rest.reverse
   | _ => r
 
-def parseRedirects (T : Tables) (r : Str) : Except Err (Str × Option Str × Str) :=
-  -- the pattern ends in `$`, which also matches just before one final newline
-  match T.regex.lookup (stripFinalNewline r) with
-  | none => .error .noMatch
-  | some (orig, mode, dest) =>
-    let dest' : Except Err Str :=
-      match dest with
-      | '&' :: rest => if rest = [] then .error .valueErr else .ok []   -- `loc, dest = int(dest[1:]), ""`
-      | _ => .ok dest
-    match dest' with
-    | .error e => .error e
-    | .ok d =>
-      let m := T.modes.lookup mode
-      if m = some ['r'] ∧ (orig ≠ [] ∨ d ≠ []) then .error .unrecognized
-      else if isWrite T m = true ∧ d ≠ [] then .error .unrecognized
-      else .ok (orig, m, d)
+/-- `_parse_redirects` after the regex matched with groups (orig, mode, dest) (always called with `loc=None`) -/
+def parseGiven (T : Tables) (g : Str × Str × Str) : Except Err (Str × Option Str × Str) :=
+  let (orig, mode, dest) := g
+  let dest' : Except Err Str :=
+    match dest with
+    | '&' :: rest => if rest = [] then .error .valueErr else .ok []   -- `loc, dest = int(dest[1:]), ""`
+    | _ => .ok dest
+  match dest' with
+  | .error e => .error e
+  | .ok d =>
+    let m := T.modes.lookup mode
+    if m = some ['r'] ∧ (orig ≠ [] ∨ d ≠ []) then .error .unrecognized
+    else if isWrite T m = true ∧ d ≠ [] then .error .unrecognized
+    else .ok (orig, m, d)
 
-/-- the classification part of `_redirect_streams` -/
-def classify (T : Tables) (r : Str) : Except Err Cls :=
+/-- `_REDIR_REGEX.match(r)`: the groups, from the enumerated language (the pattern ends in `$`, which also matches just
+before one final newline) -/
+def regexMatch (T : Tables) (r : Str) : Option (Str × Str × Str) := T.regex.lookup (stripFinalNewline r)
+
+def parseRedirects (T : Tables) (r : Str) : Except Err (Str × Option Str × Str) :=
+  match regexMatch T r with
+  | none => .error .noMatch
+  | some g => parseGiven T g
+
+/-- the classification part of `_redirect_streams`, given what the regex says about `r` -/
+def classifyGiven (T : Tables) (g : Option (Str × Str × Str)) (r : Str) : Except Err Cls :=
   if T.a2p.contains r then .ok .allPipe
   else if T.e2p.contains r then .ok .errPipe
   else
@@ -98,19 +112,24 @@ def classify (T : Tables) (r : Str) : Except Err Cls :=
     if T.e2o.contains noAmp then .ok .errToOut
     else if T.o2e.contains noAmp then .ok .outToErr
     else
-      match parseRedirects T r with
-      | .error e => .error e
-      | .ok (orig, m, _) =>
-        match m with
-        | none => .error .unrecognized
-        | some mode =>
-          if mode = ['r'] then .ok .input
-          else if T.writeModes.contains mode then
-            if T.redirAll.contains orig then .ok (.allFile mode)
-            else if T.redirOut.contains orig then .ok (.outFile mode)
-            else if T.redirErr.contains orig then .ok (.errFile mode)
+      match g with
+      | none => .error .noMatch
+      | some g =>
+        match parseGiven T g with
+        | .error e => .error e
+        | .ok (orig, m, _) =>
+          match m with
+          | none => .error .unrecognized
+          | some mode =>
+            if mode = ['r'] then .ok .input
+            else if T.writeModes.contains mode then
+              if T.redirAll.contains orig then .ok (.allFile mode)
+              else if T.redirOut.contains orig then .ok (.outFile mode)
+              else if T.redirErr.contains orig then .ok (.errFile mode)
+              else .error .unrecognized
             else .error .unrecognized
-          else .error .unrecognized
+
+def classify (T : Tables) (r : Str) : Except Err Cls := classifyGiven T (regexMatch T r) r
 
 /-- the second element of a redirect tuple -/
 inductive Loc where
@@ -132,6 +151,7 @@ inductive Slot where
   | pipeAll | pipeErr              -- the sentinels _PIPE_ALL / _PIPE_ERR
   | pipeW (i : Nat) | pipeR (i : Nat)   -- write / read end of the pipe after stage i
   | capOutW | capErrW              -- writers of the capture channels made by _make_last_spec_captured
+  | shellErr                       -- the shell's own stderr stream (only in the repaired `o>e` fix-up)
   deriving DecidableEq, Repr
 
 def safeOpen (ts : Nat → TState) (loc : Loc) (mode : Str) : Except Err Slot :=
@@ -314,7 +334,9 @@ def updateLast (q : Quirks) (cfg : Cfg) (cap : Cap) (s : Spec) : Spec :=
       -- "redirect stdout to stderr, if we should"
       let s4 : Spec :=
         if s3.sout = some .fd2 then
-          (if q.flag2BecomesNone || s3.serr.isSome then { s3 with sout := s3.serr } else s3)
+          -- today: `last._stdout = last.stderr`, also when stderr is None (captured == "stdout");
+          -- repaired: `last.stderr if last.stderr is not None else sys.stderr`
+          { s3 with sout := if q.flag2BecomesNone then s3.serr else (match s3.serr with | some x => some x | none => some .shellErr) }
         else s3
       -- "redirect stderr to stdout, if we should"
       if isAlias s4.kind && s4.serr = some .toStdout then { s4 with serr := s4.sout } else s4
@@ -375,6 +397,7 @@ def handlePlaces (q : Quirks) (cfg : Cfg) (cap : Cap) (threadable : Bool) : Slot
   | .pipeW i => some [.stdinOf (i + 1)]
   | .capOutW => some (capOutPlaces cap)
   | .capErrW => some (capErrPlaces q cfg cap threadable)
+  | .shellErr => some [.termErr]
   | _ => none
 
 structure StageOut where
@@ -391,8 +414,19 @@ def srcOf (q : Quirks) (s : Spec) : Src :=
   | some (.pipeR _) => .pipe
   | _ => .inherit
 
+/-- `SubprocSpec.run`: today the flag 2 of `o>e` is handed on as it is; repaired, it is replaced by the command's own
+stderr handle when there is one (a file or a pipe end) -/
+def resolveFd2 (q : Quirks) (s : Spec) : Spec :=
+  if !q.fd2Literal && s.sout = some .fd2 then
+    match s.serr with
+    | none => s
+    | some .toStdout => s
+    | some x => { s with sout := some x }
+  else s
+
 /-- the three ways a stage is executed: Popen / PopenThread, ProcProxyThread, ProcProxy -/
-def stageOut (q : Quirks) (cfg : Cfg) (cap : Cap) (s : Spec) : StageOut :=
+def stageOut (q : Quirks) (cfg : Cfg) (cap : Cap) (s0 : Spec) : StageOut :=
+  let s := resolveFd2 q s0
   let hp := handlePlaces q cfg cap s.threadable
   let src := srcOf q s
   let (o, e) : List Place × List Place :=
@@ -431,7 +465,7 @@ def stageOut (q : Quirks) (cfg : Cfg) (cap : Cap) (s : Spec) : StageOut :=
         | some sl => (hp sl).getD [.termErr]
       let o : List Place := match s.sout with
         | none => [.termOut]
-        | some .fd2 => if q.pickBufSmallInt then [.termOut] else if q.fd2Literal then [.termErr] else errDirect
+        | some .fd2 => if q.pickBufSmallInt then [.termOut] else errDirect    -- repaired: "this alias's stderr buffer"
         | some sl => (hp sl).getD [.termOut]
       let e : List Place := match s.serr with
         | some .toStdout => if q.pickBufSmallInt then [.termErr] else o
@@ -442,7 +476,8 @@ def stageOut (q : Quirks) (cfg : Cfg) (cap : Cap) (s : Spec) : StageOut :=
 
 /-- does CommandPipeline crash on an integer handle?  (a) ProcProxy whose stdout slot still holds the
 flag 2: before the alias runs; (b) ProcProxyThread, uncaptured, stderr = subprocess.STDOUT: after it ran -/
-def crashBefore (q : Quirks) (last : Spec) : Bool :=
+def crashBefore (q : Quirks) (last0 : Spec) : Bool :=
+  let last := resolveFd2 q last0
   isAlias last.kind && !last.threadable && last.sout = some .fd2 && q.intNotReadable
 
 def crashAfter (q : Quirks) (cap : Cap) (last : Spec) : Bool :=
